@@ -456,16 +456,29 @@ func r014(c *Ctx, r *R) {
 				}
 				var out []RetLeaf
 				expandLeaves(retResult(ret, 1), b, ret, map[ssa.Value]bool{}, &out)
-				has := false
+				// 'redirected' comes with the RPC's own error, or with a
+				// literal nil where that error was just tested to be nil
 				for _, l := range out {
-					if l.Val == rpcCall {
-						has = true
+					switch {
+					case l.Val == rpcCall:
+						found = true
+					case isNilConst(l.Val) && l.GuardedBy(func(g Guard) bool {
+						return gNil(g, false, func(v ssa.Value) bool {
+							for _, x := range phiLeaves(v) {
+								if x == rpcCall {
+									return true
+								}
+							}
+							return v == rpcCall
+						})
+					}):
+						found = true
+					case isNilConst(l.Val) && l.Block != rpcCall.(ssa.Instruction).Block() && !blockReaches(rpcCall.(ssa.Instruction).Block(), l.Block):
+						// the initial value: no redirect was attempted (zero
+						// iterations; excluded by Validate)
+					default:
+						bad = true
 					}
-				}
-				if has {
-					found = true
-				} else {
-					bad = true
 				}
 			}
 			r.Check(found && !bad, "redirect:returns-rpc-error", f.Pos(), "a redirected request returns the error of the RPC to the leader", "redirectToLeader reports 'redirected' without the RPC's error: a failed redirect is acknowledged as committed")
